@@ -476,6 +476,9 @@ var c15Shapes = []string{
 	// a Tags directive that names the tag made up from the path of an untagged interaction (must not depend on the order)
 	"JSIGHT 0.3\nGET /x\n  Tags @cats\n  200 any\nGET /cats\n  200 any\nGET /dogs\n  200 any\n",
 	"JSIGHT 0.3\nGET /x\n  Tags @cats\n  200 any\nTAG @cats // Mine\nGET /cats\n  200 any\nGET /cats/{id}\n  200 any\n",
+	// URL-level Tags and a top-level method with the same path and no Tags of its own
+	"JSIGHT 0.3\nTAG @pets\nURL /cats\n  Tags @pets\n  GET\n    200 any\nPOST /cats\n  200 any\nPUT /cats/{id}\n  200 any\n",
+	"JSIGHT 0.3\nTAG @pets\nURL /rpc\n  Tags @pets\n  Protocol json-rpc-2.0\n  Method a\n    Params\n      {}\nGET /rpc\n  200 any\nURL /u\n  GET\n    200 any\nPOST /u\n  Tags @pets\n  200 any\n",
 	// one regex type embedded by two types and a response
 	"JSIGHT 0.3\nTYPE @r regex\n  /[a-z]{8}/\nTYPE @a\n  {\"x\": @r}\nTYPE @b\n  {\"y\": @r}\nGET /r\n  200 @r\n",
 	// or-shortcut and regex types, json-rpc
